@@ -77,7 +77,20 @@ func programBody(name string, b *drv.Block) func() {
 				r.P.Locator().GetVariable("c0")
 			}
 		}()
+		// event deliverer: an event nobody listens for, handed to the instance while tokens
+		// enter activities and tasks are answered
+		delivered := 0
+		go func() {
+			for i := 0; i < 2; i++ {
+				r.Signal("noise")
+				delivered++
+			}
+		}()
 		verifrt.WaitIdle()
+		if delivered != 2 {
+			h.Fail(sig+"/consume-returns", "%d of 2 ConsumeEvent calls returned; live %v", delivered, verifrt.LiveRepoGoroutines())
+			return
+		}
 		// model: answer everything (the outcome of these programs does not depend on the order)
 		m.StartAll()
 		for steps := 0; len(m.Pending) > 0 && steps < 64; steps++ {
@@ -171,14 +184,17 @@ func eventBody(kind string) func() {
 		var w *drv.Wait
 		r.AfterStart = func() { w = r.WaitComplete(nil) }
 		r.StartAll()
-		verifrt.WaitIdle() // listeners armed
+		// round 1: the deliveries race with the start of the instance, the arming of the
+		// listeners, the activation of the host and its answer; round 2: once more at quiescence
 		sent, back := 0, 0
-		for _, x := range deliver {
-			x := x
-			sent++
-			go func() { r.Signal(x); back++ }()
+		for round := 0; round < 2; round++ {
+			for _, x := range deliver {
+				x := x
+				sent++
+				go func() { r.Signal(x); back++ }()
+			}
+			verifrt.WaitIdle()
 		}
-		verifrt.WaitIdle()
 		if back != sent {
 			h.Fail(sig+"/consume-returns", "%d of %d ConsumeEvent calls returned; live %v", back, sent, verifrt.LiveRepoGoroutines())
 			return
